@@ -176,7 +176,7 @@ pub fn run_fuzz(ctx: &Ctx, rep: &mut Report) {
             let _ = std::fs::write(corpus.join(format!("seed-{i}")), b);
         }
     }
-    let runs: u64 = std::env::var("HV_FUZZ_RUNS").ok().and_then(|s| s.parse().ok()).unwrap_or(400_000);
+    let runs: u64 = std::env::var("HV_FUZZ_RUNS").ok().and_then(|s| s.parse().ok()).unwrap_or(150_000);
     let jobs = 16;
     let status = Command::new("cargo")
         .current_dir(&harness)
@@ -185,7 +185,9 @@ pub fn run_fuzz(ctx: &Ctx, rep: &mut Report) {
         .arg("--")
         .arg(format!("-runs={runs}"))
         .arg(format!("-seed={}", ctx.seed.max(1)))
-        .args(["-len_control=0", "-max_len=1500", "-print_final_stats=1", "-timeout=60"])
+        // the campaign is sized by -runs; the wall-clock cap only bounds a badly loaded machine
+        // (reaching it shortens the campaign, it is never a verdict)
+        .args(["-len_control=0", "-max_len=1500", "-print_final_stats=1", "-timeout=60", "-max_total_time=2400"])
         .arg(format!("-jobs={jobs}"))
         .arg(format!("-workers={jobs}"))
         .env("HV_FUZZ_PROP", &ctx.id)
